@@ -21,6 +21,9 @@ fn process_commands(
                 Response::Error { msg } => {
                     responses.push(msg.clone());
                     log::debug!("Http response Error: {}", msg);
+                    // Some refusals are also pushed to the client channel, they belong to this
+                    // command and must not become the entry of the next one
+                    drain_pending_messages(receiver);
                 }
                 Response::VersionError {
                     msg,
@@ -34,6 +37,7 @@ fn process_commands(
                 } => {
                     responses.push(msg.clone());
                     log::debug!("Http response Error: {}", msg);
+                    drain_pending_messages(receiver);
                 }
                 _ => {
                     log::debug!("[http] - success processed");
@@ -56,6 +60,8 @@ fn process_commands(
                             )
                         }
                     }
+                    // One entry per command: anything else it queued is not the next one's reply
+                    drain_pending_messages(receiver);
                 }
             }
         }
@@ -66,6 +72,12 @@ fn process_commands(
 
     return responses;
 }
+fn drain_pending_messages(receiver: &mut Receiver<String>) {
+    while let Ok(Some(message)) = receiver.try_next() {
+        log::debug!("[http] dropping extra message {}", message);
+    }
+}
+
 pub fn start_http_client(dbs: Arc<Databases>, http_address: Arc<String>) {
     let http_address = http_address.to_string();
     log::debug!(
